@@ -121,13 +121,15 @@ func runC03(c *Ctx) {
 	reset := c.mustMethod("C03.R2", "buffer", "Reader", "reset")
 	if rum != nil && reset != nil {
 		R.Analysed(fname(rum))
-		fl := c.fills(rum)
-		if len(fl) != 1 {
-			R.Fail("C03.R2", "ReadUntypedMsg:shape", c.atFn(rum), "ReadUntypedMsg resets the window to the declared size and fills it with one io.ReadFull", sprintf("%d reset + ReadFull steps found (inline or through a helper of the reader)", len(fl)))
+		acc, f, outerSize, okAcc := c.acceptStep(rum)
+		if !okAcc {
+			R.Fail("C03.R2", "ReadUntypedMsg:shape", c.atFn(rum), "ReadUntypedMsg resets the window to the declared size and fills it with one io.ReadFull", "no single reset + ReadFull step found (inline, through a fill helper, or in a method tail-called with the size)")
 		} else {
-			f := fl[0]
+			if acc != rum {
+				R.Analysed(fname(acc))
+			}
 			l := core.NewLin(c.P, rum, mods, sum)
-			R.Check(c.headerSizeExpr(l, f.size, 0), "C03.R2", "ReadMsgSize:size-is-header-minus-4", c.at(f.site), "the window size is the unsigned 32-bit big-endian header minus 4, with no lossy conversion", "E-LIN normal form: Uint32(header[:]) - 4 (inline or returned by the size helper)", "the size handed to reset is not Uint32(header) - 4 through value-preserving conversions (a signed or narrowed decode mis-sizes large declared lengths)")
+			R.Check(c.headerSizeExpr(l, outerSize, 0), "C03.R2", "ReadMsgSize:size-is-header-minus-4", c.at(f.site), "the window size is the unsigned 32-bit big-endian header minus 4, with no lossy conversion", "E-LIN normal form: Uint32(header[:]) - 4 (inline or returned by the size helper)", "the size handed to reset is not Uint32(header) - 4 through value-preserving conversions (a signed or narrowed decode mis-sizes large declared lengths)")
 			via := "inline reset(size) + io.ReadFull(Buffer, Msg)"
 			if f.via != nil {
 				via = "helper " + fkey(f.via) + " (reset(p); return io.ReadFull(Buffer, Msg))"
@@ -151,7 +153,23 @@ func runC03(c *Ctx) {
 			}
 			R.Check(okHdr, "C03.R2", "ReadMsgSize:header-read-in-full", c.atFn(rum), "the 4 header bytes are read in full", "io.ReadFull(Buffer, header[:])", "the header is not filled by io.ReadFull")
 			// ---------- R3: every successful return passed the fill
-			for _, r := range returns(rum) {
+			var succ []*ssa.Return
+			succ = append(succ, returns(acc)...)
+			if acc != rum {
+				for _, r := range returns(rum) {
+					through := false
+					for _, ci := range callsIn(rum, calleeIs(acc)) {
+						if core.InstrDominates(ci, r) {
+							through = true
+						}
+					}
+					if !through {
+						cls := c.Err().Classify(errOperand(r), r.Block())
+						R.Check(!cls.MayBeNil(), "C03.R3", "ReadUntypedMsg:success-only-through:"+fkey(acc), c.at(r), "every successful message read passes the step that resets and fills the window", "returns that bypass "+fkey(acc)+" carry a non-nil error", "ReadUntypedMsg can succeed without calling "+fname(acc))
+					}
+				}
+			}
+			for _, r := range succ {
 				cls := c.Err().Classify(errOperand(r), r.Block())
 				if !cls.MayBeNil() {
 					continue
@@ -358,7 +376,17 @@ func (c *Ctx) c03Advance() {
 // size-exceeded handler.
 func (c *Ctx) c03ErrorEdges() {
 	R := c.R
-	hmse := c.P.Func("wire", "handleMessageSizeExceeded")
+	recFn, recSlurp := c.exceededRecovery()
+	// a block "recovers" if it calls the recovery helper, or performs the skip itself
+	recovers := func(b *ssa.BasicBlock) bool {
+		if recFn == nil {
+			return false
+		}
+		if recSlurp != nil && recSlurp.Block() == b {
+			return true
+		}
+		return blockHasCall(b, calleeIs(recFn))
+	}
 	n := 0
 	for _, fn := range c.P.ScopeFuncs() {
 		for _, ci := range core.Calls(fn) {
@@ -388,7 +416,7 @@ func (c *Ctx) c03ErrorEdges() {
 			for _, e := range fails {
 				inLoop := fn.Name() == "consumeSingleCommand" // the only place where a session can recover from an oversized message
 				reach := reachableAvoiding(e.to(), func(b *ssa.BasicBlock) bool {
-					return inLoop && hmse != nil && blockHasCall(b, calleeIs(hmse))
+					return inLoop && recovers(b)
 				})
 				for b := range reach {
 					r, isRet := b.Instrs[len(b.Instrs)-1].(*ssa.Return)
